@@ -511,6 +511,34 @@ def c04(res, ctx):
 def c17(res, ctx):
     return generic('pgn', 'gen_pgn', 'Lichess-layout files (1-6 games, castling tokens, comments, every result token, with/without trailing newline) x chunk sizes {1,2,3,5,7,64,8192,..} x random read fragmentations, plus malformed files')(res, ctx)
 
+def c14(res, ctx):
+    import gen_san
+    rng = random.Random(res.seed)
+    ps = positions(res.seed, res.tier, 0.35)
+    mg = V.run_impl('movegen', ps)
+    legal = {p: parse_movegen(o)['L'] for p, o in zip(ps, mg) if o.startswith('L ')}
+    cases = V.corpus('san') + gen_san.gen(rng, res.tier, legal)
+    impl, model = diff(res, 'ucistr', cases, nontrivial=gen_san.nontrivial)
+    spec_w = [gen_san.spec_case(c) for c in cases]
+    outs = {}
+    for fam in ('spec-san', 'spec-sanparse'):
+        idx = [i for i, (f, _) in enumerate(spec_w) if f == fam]
+        o = V.run_model(fam, [spec_w[i][1] for i in idx])
+        for i, x in zip(idx, o): outs[i] = x
+    k = 0
+    tags = {}
+    for i, (c, o) in enumerate(zip(cases, impl)):
+        if ' | ' not in o:
+            continue
+        v = gen_san.compare(c, o, outs[i])
+        if v is None: continue
+        if v in ('A', 'B', 'C'):
+            tags[v] = tags.get(v, 0) + 1; continue
+        if k < MAXREP: res.violation('ucistr', c, outs[i], o.split(' | ')[0], 'spec', v)
+        k += 1
+    res.notes.append('reader leniencies on NON-standard text (outside the property, not violations): ' + json.dumps(tags))
+    return dict(rule='writer: every/sampled legal move of generated positions plus constructed positions stressing disambiguation (2-4 like pieces on shared/unrelated files and ranks, pinned rivals, three promoting pawns, e.p. with two capturers, mating/stalemating/checking moves, castling with check); reader: the standard text and variants (x, +/#, over-disambiguation, annotations) and garbage; oracle = extracted SanSpec')
+
 def c15(res, ctx):
     import gen_uci
     rng = random.Random(res.seed)
@@ -550,7 +578,7 @@ def c10_full(res, ctx):
     engine_props.c10_engine(res)
     return out
 
-CHECKS = {'C15': c15, 'C19': c19, 'C04': c04, 'C07': _engine('c07'), 'C08': _engine('c08'), 'C09': _engine('c09'), 'C11': _engine('c11'), 'C16': _engine('c16'), 'C17': c17, 'C01': c01, 'C02': c02, 'C03': c03, 'C05': c05, 'C06': c06, 'C10': c10_full, 'C12': c12, 'C13': c13, 'C18': c18}
+CHECKS = {'C14': c14, 'C15': c15, 'C19': c19, 'C04': c04, 'C07': _engine('c07'), 'C08': _engine('c08'), 'C09': _engine('c09'), 'C11': _engine('c11'), 'C16': _engine('c16'), 'C17': c17, 'C01': c01, 'C02': c02, 'C03': c03, 'C05': c05, 'C06': c06, 'C10': c10_full, 'C12': c12, 'C13': c13, 'C18': c18}
 
 ASSUME = {
     'C18': ['std HashMap/VecDeque behave as a map and a queue'],
